@@ -27,7 +27,7 @@ var kindTypes = []descriptorpb.FieldDescriptorProto_Type{
 	descriptorpb.FieldDescriptorProto_TYPE_BOOL, descriptorpb.FieldDescriptorProto_TYPE_INT32, descriptorpb.FieldDescriptorProto_TYPE_INT64,
 	descriptorpb.FieldDescriptorProto_TYPE_UINT32, descriptorpb.FieldDescriptorProto_TYPE_UINT64, descriptorpb.FieldDescriptorProto_TYPE_FLOAT,
 	descriptorpb.FieldDescriptorProto_TYPE_DOUBLE, descriptorpb.FieldDescriptorProto_TYPE_STRING, descriptorpb.FieldDescriptorProto_TYPE_BYTES,
-	descriptorpb.FieldDescriptorProto_TYPE_ENUM}
+					descriptorpb.FieldDescriptorProto_TYPE_ENUM}
 var keyKinds = []int{7, 1, 2, 3, 4, 0} // string int32 int64 uint32 uint64 bool
 var enumVals = [][2]any{{"ZERO", 0}, {"ONE", 1}, {"TWO", 2}, {"NEG", -1}, {"BIG", 2147483647}}
 
